@@ -27,6 +27,8 @@ def g_dir():
     G.append(Grammar('nullrun', ['S', 'A', 'B'], ['a', 'b', 'c'], 'S',
         [('S', ['A', 'B', 'a']), ('A', []), ('A', ['b']), ('B', []), ('B', ['c'])], note='several nullable symbols in a row before a term'))
     G.append(Grammar('nrun4', ['S', 'A'], ['a'], 'S', [('S', ['A', 'A', 'A', 'A', 'a']), ('A', [])], note='four nullable symbols before the first term (stack capacity arithmetic)'))
+    G.append(Grammar('nrun3', ['S', 'A', 'B', 'C'], ['x'], 'S', [('S', ['x', 'S']), ('S', ['A', 'B', 'C']), ('A', []), ('B', []), ('C', [])],
+                     note='right-recursive list ending in three empty rules: every input character is a token and three extra values sit on the stack at once'))
     G.append(Grammar('mutual', ['S', 'T'], ['a', 'b', 'c', 'd'], 'S', [('S', ['a', 'T']), ('S', ['b']), ('T', ['c', 'S']), ('T', ['d'])], note='mutual recursion'))
     G.append(Grammar('mutleft', ['A', 'B'], ['a', 'b', 'c', 'd'], 'A', [('A', ['B', 'a']), ('A', ['c']), ('B', ['A', 'b']), ('B', ['d'])], note='mutually left-recursive nonterminals'))
     G.append(Grammar('pal', ['S'], ['a', 'b'], 'S', [('S', ['a', 'S', 'a']), ('S', ['b'])], note='centre-marked nesting'))
@@ -34,6 +36,8 @@ def g_dir():
     G.append(Grammar('interl', ['L', 'I'], ['a', 'b'], 'L', [('L', ['I']), ('I', ['a']), ('L', ['L', 'I']), ('I', ['b'])], note='rules of different nonterminals interleaved: declaration order differs from the order sorted by left side'))
     G.append(Grammar('nulfirst', ['S', 'B', 'X', 'N'], ['b', 'c', 'd', 'n'], 'S', [('S', ['B', 'X', 'd']), ('B', ['b']), ('X', []), ('X', ['N', 'c']), ('N', []), ('N', ['n'])],
                      note='a nullable rule declared before a rule that starts with another nullable nonterminal; FIRST of the tail is a lookahead source'))
+    G.append(Grammar('dflt', ['S', 'A', 'B'], ['a', 'b', 'c'], 'S', [('S', ['A', 'B'], {'f': 'default'}), ('A', ['a']), ('A', ['a', 'A'], {'f': 'default'}), ('B', ['b', 'A', 'c'], {'f': 'default'}), ('B', ['c'], {'f': 'default'})],
+                     note='rules WITHOUT functor with two and three right-side symbols of mixed kinds (needs the aggregate value type)'))
     G.append(Grammar('e123', ['S', 'P'], ['a', 'b', 'c'], 'S', [('S', ['P', 'b', 'c'], {'f': 'e1'}), ('S', ['a', 'P', 'c'], {'f': 'e2'}), ('S', ['c', 'a', 'P'], {'f': 'e3'}), ('P', ['b']), ('P', ['a', 'a'])], note='helper functors _e1.._e3 and default functors'))
     return G
 
@@ -46,6 +50,8 @@ def g_err():
         [('S', []), ('S', ['S', 'E', ';']), ('S', ['S', 'error', ';'], {'f': 'e1'}), ('E', ['E', '+', 'n']), ('E', ['n'])], note='README shape: statement list with error statement'))
     G.append(Grammar('er3', ['S', 'B'], ['(', ')', 'a'], 'S',
         [('S', ['a']), ('S', ['(', 'B', ')']), ('B', ['S']), ('B', ['B', 'S']), ('B', ['error'])], note='error deep inside brackets'))
+    G.append(Grammar('ersr', ['root', 'stmt'], ['x', ';'], 'root', [('root', ['stmt', ';']), ('root', ['stmt', 'error', ';']), ('stmt', ['x']), ('stmt', ['x', 'error'])],
+                     note='shift/reduce conflict on the error token itself (resolved as shift)'))
     G.append(Grammar('er4', ['S', 'I'], ['a', 'b', ';'], 'S',
         [('S', ['I']), ('S', ['S', ';', 'I']), ('I', ['a', 'b']), ('I', ['error', 'b'])], note='error followed by a synchronising term'))
     return G
